@@ -116,6 +116,7 @@ class CFG:
             pass
         if isinstance(st, ast.If):
             t = self._new("test", st.test, st)
+            self.owner.setdefault(id(st), t)
             self._connect(tails, t)
             self._maybe_exc(t, ctx)
             a = self._block(st.body, [(t, "T")], ctx)
@@ -123,6 +124,7 @@ class CFG:
             return a + b
         if isinstance(st, ast.While):
             t = self._new("test", st.test, st)
+            self.owner.setdefault(id(st), t)
             self._connect(tails, t)
             self._maybe_exc(t, ctx)
             ctx.break_to.append(-1)
@@ -188,6 +190,7 @@ class CFG:
             return out
         if isinstance(st, ast.Match):
             m = self._new("match", st.subject, st)
+            self.owner.setdefault(id(st), m)
             self._connect(tails, m)
             self._maybe_exc(m, ctx)
             out = []
